@@ -8,7 +8,7 @@ from __future__ import annotations
 
 import ast
 
-from ..cfg import cfg_of, deref_at
+from ..cfg import armed_path, cfg_of, deref_at
 from ..astutil import deref, ancestors, calls_in, const_value, dotted, enclosing_stmt, handler_catches, is_within, kwarg, src, walk_local
 from ..loader import AnalysisError
 from ..terms import Env, Evaluator, alts, contains, find, show, strip_sites, walk
@@ -60,92 +60,194 @@ def r1_conformance(ctx):
         ctx.check('Client' in m.assigns or 'Client' in m.classes, 'C13.R1', f'{m.rel}|exposes-client', m.rel, f'{m.rel} exposes `Client`', f'{m.rel} no longer exposes `Client` (load_backend cannot find the adapter)')
 
 
+def _const_atoms(test):
+    """[(ast.dump(other side), constant, positive)] for the ==/!= comparisons with a literal in a test, plus the
+    connective under which they appear ('and' | 'or' | 'one' | None when the shape is not a plain conjunction/disjunction)"""
+    def atom(e):
+        neg = False
+        while isinstance(e, ast.UnaryOp) and isinstance(e.op, ast.Not):
+            e, neg = e.operand, not neg
+        if isinstance(e, ast.Compare) and len(e.ops) == 1 and isinstance(e.ops[0], (ast.Eq, ast.NotEq)):
+            l, r = e.left, e.comparators[0]
+            if isinstance(l, ast.Constant):
+                l, r = r, l
+            if isinstance(r, ast.Constant):
+                return (ast.dump(l), r.value, isinstance(e.ops[0], ast.Eq) != neg)
+        return None
+
+    if isinstance(test, ast.BoolOp):
+        ats = [atom(v) for v in test.values]
+        return ats, ('and' if isinstance(test.op, ast.And) else 'or')
+    return [atom(test)], 'one'
+
+
+def _edge_facts(if_node):
+    """constants known to be matched on the true / false edge of an `if`: ({consts on true}, {consts on false})"""
+    ats, conn = _const_atoms(if_node.test)
+    t, f = set(), set()
+    if conn in ('and', 'one'):
+        t = {a[1] for a in ats if a is not None and a[2]}
+        if conn == 'one':
+            f = {a[1] for a in ats if a is not None and not a[2]}
+    if conn == 'or':
+        f = {a[1] for a in ats if a is not None and not a[2]}
+    return t, f
+
+
+def _nodes_under_consts(fn_node, cfg, wanted):
+    """edge nodes (true/false nodes of ifs) on which every constant of `wanted` is known to have matched, counting the
+    enclosing ifs: `if tag == 'IsTruncated' and text == 'false'` and the nested two-if spelling give the same edge"""
+    out = []
+    for i in walk_local(fn_node):
+        if not isinstance(i, ast.If):
+            continue
+        for edge, facts in zip(('true', 'false'), _edge_facts(i)):
+            have = set(facts)
+            child = i
+            for anc in ancestors(i):
+                if isinstance(anc, ast.If):
+                    t, f = _edge_facts(anc)
+                    have |= t if any(x is child for x in anc.body) else f if any(x is child for x in anc.orelse) else set()
+                if isinstance(anc, (ast.FunctionDef, ast.AsyncFunctionDef)):
+                    break
+                child = anc
+            if wanted <= have and facts & wanted:
+                out += cfg.nodes_of(i, edge)
+    return out
+
+
+def _under_const(node, const):
+    """the statement sits on an edge where a comparison with `const` matched"""
+    child = node
+    for anc in ancestors(node):
+        if isinstance(anc, ast.If):
+            t, f = _edge_facts(anc)
+            if any(x is child for x in anc.body) and const in t:
+                return True
+            if any(x is child for x in anc.orelse) and const in f:
+                return True
+        if isinstance(anc, (ast.FunctionDef, ast.AsyncFunctionDef)):
+            break
+        child = anc
+    return False
+
+
+def _is_marker(fn_node, e, key):
+    d = deref_at(fn_node, e) if isinstance(e, ast.Name) else e
+    if isinstance(d, ast.Subscript) and isinstance(d.slice, ast.Constant) and d.slice.value == key:
+        return True
+    return isinstance(d, ast.Call) and isinstance(d.func, ast.Attribute) and d.func.attr == 'get' and len(d.args) == 1 and isinstance(d.args[0], ast.Constant) and d.args[0].value == key
+
+
+def _marker_none_edges(fn_node, cfg, key):
+    """edge nodes on which `<page>[key]` is known to be None (the listing is complete)"""
+    out = []
+    for i in walk_local(fn_node):
+        if not isinstance(i, (ast.If, ast.While)):
+            continue
+        t, neg = i.test, False
+        while isinstance(t, ast.UnaryOp) and isinstance(t.op, ast.Not):
+            t, neg = t.operand, not neg
+        if isinstance(t, ast.Compare) and len(t.ops) == 1 and isinstance(t.comparators[0], ast.Constant) and t.comparators[0].value is None and _is_marker(fn_node, t.left, key):
+            if isinstance(t.ops[0], (ast.Is, ast.Eq)):
+                out += cfg.nodes_of(i, 'false' if neg else 'true')
+            elif isinstance(t.ops[0], (ast.IsNot, ast.NotEq)):
+                out += cfg.nodes_of(i, 'true' if neg else 'false')
+        elif _is_marker(fn_node, t, key):
+            out += cfg.nodes_of(i, 'true' if neg else 'false')
+    return out
+
+
+def _page_requests(fn):
+    """(loop, call) pairs: awaited calls of a private method of the adapter inside a loop of the listing"""
+    out = []
+    for lp in walk_local(fn.node):
+        if isinstance(lp, (ast.While, ast.For, ast.AsyncFor)):
+            for c in calls_in(lp):
+                d = dotted(c.func) or ''
+                if d.startswith('self._') and c.keywords and not any(o is not lp and isinstance(o, (ast.While, ast.For, ast.AsyncFor)) and is_within(c, o) and is_within(o, lp) for o in walk_local(lp)):
+                    out.append((lp, c))
+    return out
+
+
+def _describe(path, fn):
+    return ' -> '.join(f'{n.kind}@{n.lineno}' for n in path if n.lineno)[:300]
+
+
 def r2_pagination(ctx):
     corpus = ctx.corpus
-    # S3
-    s3 = corpus.cls('s3c', 'S3Compatible')
-    lf = s3.methods.get('list_files')
-    if lf is None:
-        raise AnalysisError('C13.R2: S3Compatible.list_files missing')
-    ctx.analysed(lf)
-    loops = [n for n in walk_local(lf.node) if isinstance(n, ast.While)]
-    ctx.floor('C13.R2', 'S3 listing loop', len(loops))
-    lp = loops[0]
-    cond = lp.test
-    cond_name = cond.id if isinstance(cond, ast.Name) else None
-    req = [c for c in calls_in(lp) if (dotted(c.func) or '').startswith('self._list')]
-    ctx.floor('C13.R2', 'S3 page request in the loop', len(req))
-    tok_name = _loop_carried_kw(lf, lp, req[0])
-    # the token is re-assigned inside the loop from the current response's elements
-    assigns = [a for a in walk_local(lp) if isinstance(a, ast.Assign) and any(isinstance(t, ast.Name) and t.id == tok_name for t in a.targets)]
-    from_resp = bool(assigns) and all(isinstance(a.value, ast.Attribute) and a.value.attr == 'text' for a in assigns)
-    guarded = all(any(isinstance(i, ast.If) and any(isinstance(c, ast.Constant) and c.value == 'NextContinuationToken' for c in ast.walk(i.test)) for i in ancestors(a)) for a in assigns)
-    ctx.check(
-        tok_name is not None and from_resp and guarded,
-        'C13.R2',
-        f'{func_label(lf)}|s3-token-loop-carried',
-        loc(lf, lp),
-        f'S3 listing: the continuation token passed to the next page request is `{tok_name}`, re-assigned inside the loop from the NextContinuationToken element of the current page',
-        'S3 listing: the continuation token sent with the next request is not taken from the current response (pages are repeated or skipped)',
-    )
-    clears = [a for a in walk_local(lp) if isinstance(a, ast.Assign) and any(isinstance(t, ast.Name) and t.id == cond_name for t in a.targets)]
-    def _guard_consts(a):
-        return {c.value for i in ancestors(a) if isinstance(i, ast.If) and any(x is i for x in ast.walk(lp)) for c in ast.walk(i.test) if isinstance(c, ast.Constant)}
-
-    term_ok = cond_name is not None and clears and all(isinstance(a.value, ast.Constant) and a.value.value is False and {'IsTruncated', 'false'} <= _guard_consts(a) for a in clears)
-    ctx.check(term_ok, 'C13.R2', f'{func_label(lf)}|s3-terminates-on-marker', loc(lf, lp), "S3 listing: the loop ends only when the response says IsTruncated == 'false'", 'S3 listing: the loop condition is not cleared exactly by the IsTruncated=false marker (premature end or endless listing)')
-    ys = [y for y in walk_local(lp) if isinstance(y, ast.Yield)]
-    ctx.check(bool(ys) and all(isinstance(y.value, ast.Attribute) and y.value.attr == 'text' for y in ys) and not any(isinstance(n, (ast.Break, ast.Return)) for n in walk_local(lp)), 'C13.R2', f'{func_label(lf)}|s3-yields-every-key', loc(lf, lp), 'S3 listing: every Key element of every page is yielded; no early exit', 'S3 listing: keys can be dropped (early exit / transformed yield)')
-    # B2
-    b2 = corpus.cls('b2', 'B2')
-    bl = b2.methods.get('list_files')
-    if bl is None:
-        raise AnalysisError('C13.R2: B2.list_files missing')
-    ctx.analysed(bl)
-    loops = [n for n in walk_local(bl.node) if isinstance(n, ast.While)]
-    ctx.floor('C13.R2', 'B2 listing loop', len(loops))
-    lp = loops[0]
-    req = [c for c in calls_in(lp) if (dotted(c.func) or '').startswith('self._list')]
-    ctx.floor('C13.R2', 'B2 page request in the loop', len(req))
-    sname = _loop_carried_kw(bl, lp, req[0])
-    assigns = [a for a in walk_local(lp) if isinstance(a, ast.Assign) and any(isinstance(t, ast.Name) and t.id == sname for t in a.targets)]
-    okc = bool(assigns) and all(isinstance(a.value, ast.Subscript) and isinstance(a.value.slice, ast.Constant) and a.value.slice.value == 'nextFileName' for a in assigns)
-    # decoded comes from this iteration's response
-    dec_ok = any(isinstance(a, ast.Assign) and isinstance(a.value, ast.Call) and isinstance(a.value.func, ast.Attribute) and a.value.func.attr == 'json' for a in walk_local(lp))
-    ctx.check(sname is not None and okc and dec_ok, 'C13.R2', f'{func_label(bl)}|b2-start-loop-carried', loc(bl, lp), "B2 listing: startFileName of the next request is nextFileName of the current page", 'B2 listing: the next request does not start at nextFileName of the current page')
-    brk = [i for i in walk_local(lp) if isinstance(i, ast.If) and any(isinstance(s, ast.Break) for s in i.body)]
-    bleft = deref_at(bl.node, brk[0].test.left) if len(brk) == 1 and isinstance(brk[0].test, ast.Compare) else None
-    okb = len(brk) == 1 and isinstance(brk[0].test, ast.Compare) and isinstance(brk[0].test.ops[0], ast.Is) and isinstance(bleft, ast.Subscript) and isinstance(bleft.slice, ast.Constant) and bleft.slice.value == 'nextFileName' and isinstance(brk[0].test.comparators[0], ast.Constant) and brk[0].test.comparators[0].value is None
-    all_breaks = [n for n in walk_local(lp) if isinstance(n, (ast.Break, ast.Return))]
-    # every name of every page is reported: no iteration of the page's file loop can pass over the yield
-    bcfg = cfg_of(bl.node)
-    for y in [n for n in walk_local(lp) if isinstance(n, ast.Yield)]:
-        yst = enclosing_stmt(y)
-        inner = [a for a in ancestors(y) if isinstance(a, (ast.For, ast.AsyncFor)) and any(x is a for x in ast.walk(lp))]
-        if not inner:
-            continue
-        il = inner[0]
-        ynodes = bcfg.nodes_of(yst, 'stmt')
-        heads = bcfg.nodes_of(il, 'loop')
-        skip = None
-        for t in bcfg.nodes_of(il, 'true'):
-            skip = skip or bcfg.path(t, heads, avoid=ynodes, kinds=('normal',))
+    for cls_mod, cls_name, label, token_key, in (('s3c', 'S3Compatible', 'S3', None), ('b2', 'B2', 'B2', 'nextFileName')):
+        ci = corpus.cls(cls_mod, cls_name)
+        lf = ci.methods.get('list_files')
+        if lf is None:
+            raise AnalysisError(f'C13.R2: {cls_name}.list_files missing')
+        ctx.analysed(lf)
+        fn = lf.node
+        cfg = cfg_of(fn)
+        reqs = [(lp, c) for lp, c in _page_requests(lf) if _loop_carried_kw(lf, lp, c) is not None]
+        ctx.floor('C13.R2', f'{label} page request with a loop-carried continuation argument', len(reqs))
+        lp, req = reqs[0]
+        tok = _loop_carried_kw(lf, lp, req)
+        assigns = [a for a in walk_local(lp) if isinstance(a, ast.Assign) and any(isinstance(t, ast.Name) and t.id == tok for t in a.targets)]
+        if label == 'S3':
+            def from_marker(a):
+                v = deref_at(fn, a.value) if isinstance(a.value, ast.Name) else a.value
+                return isinstance(v, ast.Attribute) and v.attr == 'text' and _under_const(a, 'NextContinuationToken')
+            okc = bool(assigns) and all(from_marker(a) for a in assigns)
+            ctx.check(okc, 'C13.R2', f'{func_label(lf)}|s3-token-loop-carried', loc(lf, lp), f'S3 listing: the continuation token passed to the next page request is `{tok}`, re-assigned inside the loop only from the NextContinuationToken element of the current page', 'S3 listing: the continuation token sent with the next request is not taken from the current response (pages are repeated or skipped)')
+            ends = _nodes_under_consts(fn, cfg, {'IsTruncated', 'false'})
+        else:
+            okc = bool(assigns) and all(_is_marker(fn, a.value, token_key) for a in assigns)
+            dec_ok = any(isinstance(a, ast.Assign) and isinstance(a.value, ast.Call) and isinstance(a.value.func, ast.Attribute) and a.value.func.attr == 'json' for a in walk_local(lp))
+            ctx.check(okc and dec_ok, 'C13.R2', f'{func_label(lf)}|b2-start-loop-carried', loc(lf, lp), 'B2 listing: startFileName of the next request is nextFileName of the current page', 'B2 listing: the next request does not start at nextFileName of the current page')
+            ends = _marker_none_edges(fn, cfg, token_key)
+        ctx.floor('C13.R2', f'{label} end-of-listing test', len(ends))
+        rst = enclosing_stmt(req)
+        rnodes = cfg.nodes_of(rst, 'ok') or cfg.nodes_of(rst, 'stmt')
+        # 1. the listing ends only on the end marker: after a page request, no way out of the function that does not
+        #    pass the edge on which the response said "complete" (flag locals are followed: `done = True ... if done: return`)
+        early = armed_path(cfg, fn, rnodes, ends, [cfg.exit])
         ctx.check(
-            skip is None,
+            early is None,
             'C13.R2',
-            f'{func_label(bl)}|b2-yields-every-name',
-            loc(bl, yst),
-            'B2 listing: every fileName of every page is yielded (no iteration of the file loop passes over the yield)',
-            'B2 listing: a listed name can be passed over without being reported (a condition / `continue` in the file loop): live objects can be missing from the listing (e.g. one name per page boundary)',
+            f'{func_label(lf)}|{label.lower()}-terminates-on-marker',
+            loc(lf, lp),
+            f'{label} listing: after a page request the generator finishes only through the edge on which the response marked the listing complete ({"IsTruncated == false" if label == "S3" else "nextFileName is None"})',
+            f'{label} listing: the listing can end without the response having marked it complete (e.g. an empty page, a wrong flag): later files are not listed; path {_describe(early or [], lf)}',
         )
-    ctx.check(okb and len(all_breaks) == 1, 'C13.R2', f'{func_label(bl)}|b2-terminates-on-marker', loc(bl, lp), 'B2 listing: the loop ends exactly when nextFileName is None', 'B2 listing: the loop can end on another condition than nextFileName is None (e.g. an empty page): later files are not listed')
-    # yields precede the break test
-    ys = [enclosing_stmt(y) for y in walk_local(lp) if isinstance(y, ast.Yield)]
-    # on the CFG: no path from the start of an iteration to the end-of-listing test avoids the loop that yields the page's names
-    yloops = [a for y in walk_local(lp) if isinstance(y, ast.Yield) for a in ancestors(y) if isinstance(a, (ast.For, ast.AsyncFor)) and any(x is a for x in ast.walk(lp))]
-    yheads = [n for l_ in yloops for n in bcfg.nodes_of(l_, 'loop')]
-    before_ok = bool(ys) and bool(brk) and bool(yheads) and all(bcfg.path(t, bcfg.nodes_of(brk[0], 'test'), avoid=yheads, kinds=('normal',)) is None for t in bcfg.nodes_of(lp, 'true'))
-    ctx.check(before_ok, 'C13.R2', f'{func_label(bl)}|b2-yields-before-continuing', loc(bl, lp), "B2 listing: the page's names are yielded before the continuation is followed", "B2 listing: the last page's names are not yielded")
+        # 2. a page's names are reported before the listing goes on or ends
+        ys = [n for n in walk_local(lp) if isinstance(n, ast.Yield)]
+        yloops = [a for y in ys for a in ancestors(y) if isinstance(a, (ast.For, ast.AsyncFor)) and is_within(a, lp) and a is not lp]
+        yheads = [n for l_ in yloops for n in cfg.nodes_of(l_, 'loop')]
+        ctx.floor('C13.R2', f'{label} loop that yields the names of a page', len(yheads))
+        unreported = armed_path(cfg, fn, rnodes, yheads, [cfg.exit] + cfg.nodes_of(rst, 'stmt'))
+        ctx.check(unreported is None, 'C13.R2', f'{func_label(lf)}|{label.lower()}-yields-before-continuing', loc(lf, lp), f"{label} listing: the page's names are yielded before the continuation is followed or the listing ends", f"{label} listing: a page's names are not yielded (the last page, or a page before the next request); path {_describe(unreported or [], lf)}")
+        # 3. no element of the page is passed over
+        for y in ys:
+            yst = enclosing_stmt(y)
+            inner = [a for a in ancestors(y) if isinstance(a, (ast.For, ast.AsyncFor)) and is_within(a, lp) and a is not lp]
+            if not inner:
+                continue
+            il = inner[0]
+            early_out = [n for n in walk_local(il) if isinstance(n, (ast.Break, ast.Return))]
+            if label == 'S3':
+                v = deref_at(fn, y.value) if isinstance(y.value, ast.Name) else y.value
+                ok = isinstance(v, ast.Attribute) and v.attr == 'text' and _under_const(yst, 'Key') and not early_out
+                ctx.check(ok, 'C13.R2', f'{func_label(lf)}|s3-yields-every-key', loc(lf, yst), 'S3 listing: the text of every Key element of every page is yielded; the element loop has no early exit', 'S3 listing: keys can be dropped (early exit from the element loop / transformed yield / yield not under the Key test)')
+            else:
+                ynodes = cfg.nodes_of(yst, 'stmt')
+                heads = cfg.nodes_of(il, 'loop')
+                skip = None
+                for t in cfg.nodes_of(il, 'true'):
+                    skip = skip or cfg.path(t, heads, avoid=ynodes, kinds=('normal',))
+                ctx.check(
+                    skip is None and not early_out,
+                    'C13.R2',
+                    f'{func_label(lf)}|b2-yields-every-name',
+                    loc(lf, yst),
+                    'B2 listing: every fileName of every page is yielded (no iteration of the file loop passes over the yield, no early exit)',
+                    'B2 listing: a listed name can be passed over without being reported (a condition / `continue` / early exit in the file loop): live objects can be missing from the listing (e.g. one name per page boundary)',
+                )
 
 
 def _loop_carried_kw(fn, loop, call):
